@@ -29,7 +29,6 @@ import (
 	"github.com/miekg/dns"
 	"github.com/semihalev/sdns/config"
 	"github.com/semihalev/sdns/middleware/resolver"
-	"github.com/semihalev/sdns/middleware/resolver/dnssec"
 )
 
 const (
@@ -783,5 +782,3 @@ func mustJSON(v any) string {
 	}
 	return string(b)
 }
-
-var _ = dnssec.KeyTag
